@@ -346,7 +346,9 @@ pub fn run_check(spec: &CheckSpec, tier: Tier) -> i32 {
             }
             Err(e) => {
                 unconfirmed.push(format!("replay of {} in a fresh process did not reproduce the violation: {}", path.display(), e));
-                let _ = std::fs::remove_file(&path);
+                if std::env::var_os("RAINSIM_KEEP_UNCONFIRMED").is_none() {
+                    let _ = std::fs::remove_file(&path);
+                }
                 exit = 2;
             }
         }
